@@ -194,6 +194,16 @@ def nullRow (uids : List Uid) : Row := uids.map (fun u => (u, Val.null))
 def projTo (lvis tvis : List (String × Uid)) (row : Row) : Row :=
   lvis.map (fun e => (e.2, match tvis.find? (·.1 == e.1) with | some (_, u) => row.get u | none => .null))
 
+/-- before duplicates are removed, a column that holds a float somewhere is compared as a float column (its type is the
+    common type of both sides of the union: an integer `0` and a float `0.0` are the same value there) -/
+def floatKey (e : Uid × Val) : Option Uid := match e.2 with | .flt _ => some e.1 | _ => none
+def floatCols (rows : List Row) : List Uid := (rows.flatMap (fun r => r.filterMap floatKey)).eraseDups
+def normVal (fc : List Uid) (e : Uid × Val) : Uid × Val :=
+  match e.2 with
+  | .int i => if fc.contains e.1 then (e.1, Ops.vF (Float.ofInt i)) else e
+  | _ => e
+def normNumCols (rows : List Row) : List Row := rows.map (fun r => r.map (normVal (floatCols rows)))
+
 /-- `Spec.run`: the documented meaning of a verb tree on a database -/
 def run (db : DB) : Ast → STbl
   | .source _ name cols _ =>
@@ -264,7 +274,7 @@ def run (db : DB) : Ast → STbl
       let rt := run db r
       -- rows are matched by column *name*; only the visible columns survive
       let all := lt.rows.map (projTo lt.visible lt.visible) ++ rt.rows.map (projTo lt.visible rt.visible)
-      { rows := if distinct then all.eraseDups else all, visible := lt.visible, group := [] }
+      { rows := if distinct then (normNumCols all).eraseDups else all, visible := lt.visible, group := [] }
 
 /-- the exported frame: visible columns in order -/
 def STbl.frame (t : STbl) : List String × List (List Val) :=
